@@ -84,6 +84,8 @@ pub fn gen_case(prop: &str, seed: u64, tier: &str, _run: u64) -> Case {
     let thorough = tier == "thorough";
     let schedules = if thorough { 600 } else { 150 };
     let sseed = rng.next();
+    // C11: one third of the programs race on a directory that does not exist yet
+    let fresh_dir = prop == "C11" && Rng::new(seed ^ 0x11).chance(1, 3);
     let (workload, tasks, orphans, shared_handle) = match prop {
         "C05" | "C06" => {
             // readers against overwriting / removing writers on the same key; every written value unique
@@ -245,7 +247,7 @@ pub fn gen_case(prop: &str, seed: u64, tier: &str, _run: u64) -> Case {
         property: prop.to_string(),
         workload,
         noise: None,
-        mode: Mode::Conc(ConcSpec { tasks, orphans, shared_handle, schedules, sseed, replay: None, strategy: None }),
+        mode: Mode::Conc(ConcSpec { tasks, orphans, shared_handle, schedules, sseed, replay: None, strategy: None, fresh_dir }),
     }
 }
 
